@@ -3,8 +3,8 @@ use syn::{
     ext::IdentExt,
     parse_quote,
     visit::{visit_path, Visit},
-    visit_mut::{visit_type_mut, VisitMut},
-    GenericParam, Generics, Ident, Type,
+    visit_mut::{visit_expr_mut, visit_type_mut, VisitMut},
+    Expr, ExprParen, GenericParam, Generics, Ident, Type,
 };
 
 macro_rules! bail {
@@ -113,4 +113,30 @@ impl GenericParamSet {
         visitor.visit_type(ty);
         visitor.result
     }
+}
+
+/// Turns the invisible groups inside a user-written expression (an `expr` fragment passed through `macro_rules!`,
+/// e.g. `$base` in `#[default($base * 2)]`) into parentheses.
+/// rustc ignores invisible delimiters in the output of a procedural macro, so the fragment would lose its grouping
+/// (`1 + 2 * 2` instead of `(1 + 2) * 2`) when the expression is embedded in the generated code.
+pub fn keep_grouping(mut e: Expr) -> Expr {
+    struct GroupToParen;
+    impl VisitMut for GroupToParen {
+        fn visit_expr_mut(&mut self, e: &mut Expr) {
+            visit_expr_mut(self, e);
+            if let Expr::Group(g) = e {
+                *e = Expr::Paren(ExprParen {
+                    attrs: std::mem::take(&mut g.attrs),
+                    paren_token: syn::token::Paren(g.group_token.span),
+                    expr: g.expr.clone(),
+                });
+            }
+        }
+    }
+    // the expression as a whole is always embedded as one operand: only groups inside it matter
+    if let Expr::Group(g) = e {
+        e = *g.expr;
+    }
+    GroupToParen.visit_expr_mut(&mut e);
+    e
 }
